@@ -126,7 +126,9 @@ class Ctx:
         with open(os.path.join(rundir, name + ".cfg"), "w") as f:
             f.write(cfg_text)
         meta = os.path.join(rundir, "meta")
-        cmd = ["java", "-XX:+UseParallelGC", "-XX:ParallelGCThreads=4", "-Xss64m", "-Xmx" + heap]
+        jtmp = os.path.join(rundir, "jtmp")
+        os.makedirs(jtmp, exist_ok=True)
+        cmd = ["java", "-XX:+UseParallelGC", "-XX:ParallelGCThreads=4", "-Xss64m", "-Xmx" + heap, "-Djava.io.tmpdir=" + jtmp]
         if depth_first:
             cmd.append("-Dtlc2.tool.queue.IStateQueue=StateDeque")
         cmd += ["-cp", TLC_CP, "tlc2.TLC", "-workers", str(workers or NCPU), "-metadir", meta,
